@@ -277,7 +277,7 @@ def run(facts, R):
     # each token obtained in a plain loop is stored on every path before the next one is fetched
     nxt = [(i, t) for i, t in ds.calls() if t["callee"]["name"] == "next" and "Split<" in (t["callee"].get("self_ty") or "")]
     for i, t in nxt:
-        some = [x for x in sorted(ds.live_blocks()) if any(f["val"] == "Some" and f["expr"][0] == "call" and len(f["expr"]) > 3 and f["expr"][3] == i for f in facts_at(ds, dsym, facts, x))]
+        some = [x for x in sorted(ds.live_blocks()) if any(f["val"] == "Some" and not f.get("derived") and f["expr"][0] == "call" and len(f["expr"]) > 3 and f["expr"][3] == i for f in facts_at(ds, dsym, facts, x))]
         heads = [x for x in some if not any(p in some for p in ds.preds()[x])]
         stores = []
         for x, y, st in ds.assigns():
